@@ -1,3 +1,4 @@
+(* MODEL: model *)
 (* Line-protocol driver for the extracted IR model (engine "ir").
    stdin : one op per line (see harness/ir_proto.py); a line "reset" starts a new history.
    stdout: one canonical dump line per op. Trusted glue: parsing and printing only. *)
